@@ -667,6 +667,17 @@ collect:
 	}
 
 	// ---- phase 3: recovery on the same port
+	d0 := dials.Load()
+	if scripted {
+		d0 = sc.dials.Load()
+		sc.acc.Store(0)
+	}
+	if srv != nil {
+		srv.acc.Store(0)
+		srv.mu.Lock()
+		srv.seen = map[string]bool{}
+		srv.mu.Unlock()
+	}
 	if scripted {
 		sc.set("ok")
 	} else {
@@ -683,17 +694,6 @@ collect:
 		}
 	}
 	time.Sleep(30 * time.Millisecond)
-	d0 := dials.Load()
-	if scripted {
-		d0 = sc.dials.Load()
-		sc.acc.Store(0)
-	}
-	if srv != nil {
-		srv.acc.Store(0)
-		srv.mu.Lock()
-		srv.seen = map[string]bool{}
-		srv.mu.Unlock()
-	}
 	var ab strings.Builder
 	for i := 0; i < after; i++ {
 		rc := make(chan xres, 1)
